@@ -324,7 +324,9 @@ func driveRings(plan []M, out *Out, _ []string) {
 				hung := false
 				withWatchdog(3*time.Second, &hung, func() {
 					R.Do(func(v int) {
-						fvisited = append(fvisited, v)
+						if len(fvisited) < 5000 { // (a walk that never ends must not produce an endless trace line)
+							fvisited = append(fvisited, v)
+						}
 						seen++
 						if done || seen != num(c, "at") || v < 1 || v > len(p.fr) {
 							return
@@ -392,7 +394,9 @@ func driveRings(plan []M, out *Out, _ []string) {
 				withWatchdog(3*time.Second, &hung, func() {
 					R.Do(func(a any) {
 						v := anyInt(a)
-						gvisited = append(gvisited, v)
+						if len(gvisited) < 5000 {
+							gvisited = append(gvisited, v)
+						}
 						seen++
 						if done || seen != num(c, "at") || v < 1 || v > len(p.gr) {
 							return
@@ -429,7 +433,11 @@ func driveRings(plan []M, out *Out, _ []string) {
 			for i, x := range p.fr {
 				if i < len(obs) && obs[i] == true {
 					d := []int{}
-					x.Do(func(v int) { d = append(d, v) })
+					x.Do(func(v int) {
+						if len(d) < 5000 {
+							d = append(d, v)
+						}
+					})
 					ln, do, nx, pv = append(ln, x.Len()), append(do, d), append(nx, p.fid(x.Next())), append(pv, p.fid(x.Prev()))
 				} else {
 					ln, do, nx, pv = append(ln, 0), append(do, []int{}), append(nx, 0), append(pv, 0)
@@ -451,7 +459,11 @@ func driveRings(plan []M, out *Out, _ []string) {
 			for i, x := range p.gr {
 				if i < len(obs) && obs[i] == true {
 					d := []int{}
-					x.Do(func(v any) { d = append(d, anyInt(v)) })
+					x.Do(func(v any) {
+						if len(d) < 5000 {
+							d = append(d, anyInt(v))
+						}
+					})
 					ln, do, nx, pv = append(ln, x.Len()), append(do, d), append(nx, p.gid(x.Next())), append(pv, p.gid(x.Prev()))
 				} else {
 					ln, do, nx, pv = append(ln, 0), append(do, []int{}), append(nx, 0), append(pv, 0)
